@@ -57,13 +57,13 @@ pub fn gen(rng: &mut Prng, plan: &mut Plan) {
         .l32("v", &v);
     let nsteps = rng.range(1, 14);
     let ops = [
-        "next", "next_back", "nth", "nth_back", "len", "size_hint", "take", "take_back",
+        "next", "next_back", "nth", "nth_back", "len", "size_hint", "take", "take_back", "step2", "skip_next", "alt",
     ];
-    let w = [30u32, 30, 10, 10, 6, 4, 5, 5];
+    let w = [30u32, 30, 10, 10, 6, 4, 5, 5, 4, 4, 3];
     for _ in 0..nsteps {
         let op = ops[rng.weighted(&w)];
         let mut s = Step::new(op);
-        if matches!(op, "nth" | "nth_back" | "take" | "take_back") {
+        if matches!(op, "nth" | "nth_back" | "take" | "take_back" | "step2" | "skip_next" | "alt") {
             s = s.i("k", rng.below(4) as i128);
         }
         plan.steps.push(s);
@@ -200,11 +200,32 @@ fn drive<T: Word, I>(
                     i.by_ref().take(k).map(|x| x.as_u64()).collect(),
                     None,
                 ),
-                _ => (
+                "take_back" => (
                     None,
                     i.by_ref().rev().take(k).map(|x| x.as_u64()).collect(),
                     None,
                 ),
+                // two items of every (k+1)-th element: step_by drives nth()
+                "step2" => (
+                    None,
+                    i.by_ref().step_by(k + 1).take(2).map(|x| x.as_u64()).collect(),
+                    None,
+                ),
+                // skip(k) then one item: drives nth() / advance
+                "skip_next" => (Some(i.by_ref().skip(k).next().map(|x| x.as_u64())), vec![], None),
+                // k+1 rounds of "one from the front, one from the back": the cursors meet in the middle
+                _ => {
+                    let mut v = vec![];
+                    for _ in 0..=k {
+                        if let Some(x) = i.next() {
+                            v.push(x.as_u64());
+                        }
+                        if let Some(x) = i.next_back() {
+                            v.push(x.as_u64());
+                        }
+                    }
+                    (None, v, None)
+                }
             }
         });
         let (item, items, sz) = match r {
@@ -248,9 +269,41 @@ fn drive<T: Word, I>(
                     }
                 }
             }
-            _ => {
+            "take_back" => {
                 back |= k > 0;
                 for _ in 0..k {
+                    if let Some(x) = model.pop_back() {
+                        e_items.push(x.as_u64());
+                    }
+                }
+            }
+            "step2" => {
+                front = true;
+                // step_by(n): first element, then every n-th after it; take(2)
+                if let Some(x) = model.pop_front() {
+                    e_items.push(x.as_u64());
+                    for _ in 0..k.min(model.len()) {
+                        model.pop_front();
+                    }
+                    if let Some(y) = model.pop_front() {
+                        e_items.push(y.as_u64());
+                    }
+                }
+            }
+            "skip_next" => {
+                front = true;
+                for _ in 0..k.min(model.len()) {
+                    model.pop_front();
+                }
+                e_item = Some(model.pop_front().map(|x| x.as_u64()));
+            }
+            _ => {
+                front = true;
+                back = true;
+                for _ in 0..=k {
+                    if let Some(x) = model.pop_front() {
+                        e_items.push(x.as_u64());
+                    }
                     if let Some(x) = model.pop_back() {
                         e_items.push(x.as_u64());
                     }
